@@ -319,7 +319,7 @@ func c06Notes(rec *evid.Rec) {
 func TestC06_Rapid(t *testing.T) {
 	rec := evid.For("C06")
 	c06Notes(rec)
-	pbt.Check(t, rec, "typed", evid.Pick(30000, 500000), func(rt *rapid.T) (any, error) {
+	pbt.Check(t, rec, "typed", evid.Pick(80000, 600000), func(rt *rapid.T) (any, error) {
 		c, nt := genC06(rt)
 		rec.Case(c.Attr, c06Sig(c), nt, func() any { return c })
 		var err error
